@@ -3,6 +3,7 @@ CONSTANTS
   Zones = {1, 2}
   FixLock = TRUE
   FixAck = TRUE
+  FixStale = TRUE
   ZlibDetects = TRUE
   MaxMain = 2
   MaxFaults = 1
